@@ -52,6 +52,8 @@ func checkC21(c *core.Ctx) {
 	ruleColumnCursor(c)
 	ruleOffsetPaginator(c)
 	rulePaginateDispatch(c)
+	// "exactly once": a history join that returns one row per revision duplicates the entity
+	ruleHistoryLatestRevision(c)
 }
 
 func nospace(s string) string { return strings.ReplaceAll(s, " ", "") }
